@@ -1975,6 +1975,9 @@ FINDINGS = [
      "what": "fun_upd_eval on ((%x::int. 0)(0 := 1)) 3 = 0: the expansion contains a nat_const_ineq step on int numerals (accepted by its eval before C04-1)"},
     {"status": "fixed", "key": "fun_upd_eval:expansion-rejected:output-does-not-match", "commit": "fixes/C04-1-nat_const_ineq.patch",
      "what": "same cause as above"},
+    {"status": "fixed", "key": "intros:expansion-rejected:InvalidDerivationException", "commit": "fixes/C04-11-apply_theorem.patch",
+     "what": "intros args=[?m. n = 2 * m] prevs=[|- ?m. n = 2 * m, |- _VAR m, n = 2 * m |- n = 2 * m, |- (%m. n = 2 * m) n]: the nested "
+             "apply_theorem exE step evaluates (premises matched up to beta) but its expansion raises, so the checker rejects the expansion of intros"},
     {"status": "fixed", "key": "verit_not_implies1:hypotheses-added:premise-hypotheses-missing-in-eval", "commit": "fixes/C18-08-not_implies-hyps.patch",
      "what": "verit_not_implies1 on H3 |- ~(a --> e): eval reports |- a, the expansion proves H3 |- a (repaired by the C18 patch)"},
     {"status": "fixed", "key": "verit_not_implies2:hypotheses-added:premise-hypotheses-missing-in-eval", "commit": "fixes/C18-08-not_implies-hyps.patch",
